@@ -69,8 +69,12 @@ def programs(draw):
     fault = d.choice(['overlap', 'address-too-big', 'segment-misaligned', 'reserve-misaligned', 'pad-misaligned', 'word-too-big',
                       'word-negative', 'wflip-value-too-big', 'pad-zero', 'duplicate-label', 'reserve-w-only']) if d.pct() < 22 else None
     first = True
+    if fault == 'overlap' and w > 8:
+        seg_budget = max(seg_budget, d.choice([1, 1, 2]))   # overlap geometries need an earlier segment above address 0
     while n_ops < max_ops:
         r = d.pct()
+        if fault == 'overlap' and seg_budget > 0 and n_ops >= 1 and not first and r < 25:
+            r = 95
         if d.pct() < 45:
             skel.append(['label', 'l%d' % nlabels])
             nlabels += 1
@@ -145,7 +149,25 @@ def programs(draw):
         idx_ops = [i for i, s in enumerate(stmts) if s[0] == 'op']
         idx_wf = [i for i, s in enumerate(stmts) if s[0] == 'wflip']
         if fault == 'overlap' and w > 8:
-            stmts += [['segment', ['n', d.choice([0, dw, (len(idx_ops) // 2) * dw]), 'dec']], ['op', None, None]]
+            later = [sg for sg in L.segments if sg['start'] > 0 and sg['stmts_end'] > sg['start']]
+            kind = d.choice(['inside-first', 'inside-first', 'enclose', 'enclose', 'same-start', 'last-op']) if later else 'inside-first'
+            if kind == 'inside-first':
+                stmts += [['segment', ['n', d.choice([0, dw, (len(idx_ops) // 2) * dw]), 'dec']], ['op', None, None]]
+            else:
+                sg = d.choice(later)
+                size = sg['stmts_end'] - sg['start']
+                if kind == 'enclose':
+                    # a later statement run that starts below an earlier segment and runs past its end
+                    k = d.int(1, 4)
+                    stmts += [['segment', ['n', sg['start'] - k * dw, 'hex']]]
+                    if d.bool() or size > 40 * dw:
+                        stmts += [['op', None, None], ['reserve', ['n', size + k * dw, 'dec']], ['op', None, None]]
+                    else:
+                        stmts += [['op', None, None]] * (size // dw + k + 1)
+                elif kind == 'same-start':
+                    stmts += [['segment', ['n', sg['start'], 'hex']], ['op', None, None]]
+                else:
+                    stmts += [['segment', ['n', sg['stmts_end'] - dw, 'hex']], ['op', None, None]]
         elif fault == 'address-too-big':
             stmts += [['segment', ['n', lim + d.choice([0, dw, 100 * dw]) if d.bool() else lim - d.choice([0, dw]) + dw, 'hex']], ['op', None, None]]
         elif fault == 'segment-misaligned':
@@ -206,7 +228,10 @@ def assemble(case, src):
         return 'timeout', None, None
     except Exception as e:
         return 'raw', e, None
-    return 'ok', Reader(out), load_debugging_labels(dbg)
+    try:
+        return 'ok', Reader(out), load_debugging_labels(dbg)
+    except FlipJumpException as e:
+        return 'unreadable', e, None
 
 
 def run_case(case):
@@ -216,6 +241,9 @@ def run_case(case):
     L = asmref.layout(w, stmts)
     src = asmref.render_program(stmts, case.get('style', 'min'), case.get('join_labels', False), case.get('wrap', True))
     status, obj, table = assemble(case, src)
+    if status == 'unreadable':
+        return Violation('c02:assembled-file-refused-by-the-reader' + (':impossible-layout-accepted' if L.verdict == 'impossible' else ''),
+                         {'exc': repr(obj)[:300], 'model_verdict': L.verdict, 'model_reason': L.reason, 'src': src[:700]}, ['w=%d' % w])
     cl = ['w=%d' % w, 'verdict=' + L.verdict] + (['fault=' + case['fault']] if case.get('fault') else [])
     if status == 'timeout':
         return Discard('inconclusive: assembler wall guard')
